@@ -231,13 +231,13 @@ def _poly_of(v):
     return {(): f} if f else {}
 
 
-def mk(p, nn=False):
+def mk(p, nn=False, pos=False):
     if CTX is not None and CTX.sqrt_rad:
         p = p_reduce(p)
     c = p_const(p)
     if c is not None:
         return c
-    return S(p, nn)
+    return S(p, nn, pos)
 
 
 def is_sym(v):
@@ -249,13 +249,14 @@ def is_sym(v):
 
 class S:
     """symbolic real: polynomial with rational coefficients over atoms"""
-    __slots__ = ('p', 'nn', '_z', '_l', '_k')
+    __slots__ = ('p', 'nn', 'pos', '_z', '_l', '_k')
     __array_priority__ = 1e9
     __hash__ = None
 
-    def __init__(self, p, nn=False):
+    def __init__(self, p, nn=False, pos=False):
         self.p = p
-        self.nn = nn  # statically known to be >= 0
+        self.nn = nn or pos  # statically known to be >= 0
+        self.pos = pos       # statically known to be > 0
         self._z = self._l = self._k = None
 
     # arithmetic -------------------------------------------------------------
@@ -263,7 +264,8 @@ class S:
         q = _poly_of(o)
         if q is None:
             return NotImplemented
-        return mk(p_add(s.p, q), s.nn and _nn(o))
+        nn = s.nn and _nn(o)
+        return mk(p_add(s.p, q), nn, nn and (s.pos or _pos(o)))
     __radd__ = __add__
 
     def __sub__(s, o):
@@ -288,7 +290,7 @@ class S:
             # keep big products factored: name the factors (definition atoms) instead of expanding
             a = _defpoly(a, s.nn)
             q = a if same else _defpoly(q, _nn(o))
-        return mk(p_mul(a, q), same or (s.nn and _nn(o)))
+        return mk(p_mul(a, q), same or (s.nn and _nn(o)), s.pos and (same or _pos(o)))
     __rmul__ = __mul__
 
     def __truediv__(s, o):
@@ -378,6 +380,13 @@ def _nn(v):
     return f is not None and f >= 0
 
 
+def _pos(v):
+    if isinstance(v, S):
+        return v.pos
+    f = to_fr(v)
+    return f is not None and f > 0
+
+
 EXPAND_LIMIT = 400
 
 
@@ -391,11 +400,43 @@ def mkcmp(op, p):
     c = p_sign(p)
     if c is not None:
         return {'lt': c < 0, 'le': c <= 0, 'gt': c > 0, 'ge': c >= 0, 'eq': c == 0, 'ne': c != 0}[op]
+    f = _factor_nn(p)
+    if f is not None:
+        mono, q = f
+        sq = p_sign(q)
+        if sq is not None and sq != 0:
+            if not mono:            # only strictly positive closed atoms were factored out
+                return {'lt': sq < 0, 'le': sq < 0, 'gt': sq > 0, 'ge': sq > 0, 'eq': False, 'ne': True}[op]
+            A = {mono: Fr(1)}
+            a_pos, a_zero = B('lt', p_scale(A, -1)), B('eq', A)
+            if sq < 0:
+                op = {'lt': 'gt', 'le': 'ge', 'gt': 'lt', 'ge': 'le'}.get(op, op)
+            # now p has the sign of the non-negative monomial A
+            return {'gt': a_pos, 'ge': True, 'lt': False, 'le': a_zero, 'eq': a_zero, 'ne': a_pos}[op]
     if op == 'gt':
         return B('lt', p_scale(p, -1))
     if op == 'ge':
         return B('le', p_scale(p, -1))
     return B(op, p)
+
+
+def _factor_nn(p):
+    """(mono, q) with p == P * mono * q where mono is a product of atoms known to be >= 0 occurring in every monomial and
+    P > 0 a product of closed atoms with positive value (dropped: it does not change the sign); None if nothing factors"""
+    if CTX is None or len(p) < 2:
+        return None
+    common = None
+    for m in p:
+        ats = set(a for a, _ in m if CTX.atom_nonneg(a))
+        common = ats if common is None else (common & ats)
+        if not common:
+            return None
+    q = {}
+    for m, c in p.items():
+        mm = tuple((x, e - 1) if x in common else (x, e) for x, e in m if not (x in common and e == 1))
+        q[mm] = q.get(mm, 0) + c
+    mono = tuple(sorted((a, 1) for a in common if not (CTX.atom_val.get(a) is not None and CTX.atom_val[a] > _TINY)))
+    return mono, q
 
 
 # ----------------------------------------------------------------------------- booleans
@@ -554,7 +595,7 @@ def div(a, b):
     if cb is not None:
         if cb == 0:
             raise DomainError('division by concrete zero')
-        return mk(p_scale(pa, 1 / cb), _nn(a) and cb > 0)
+        return mk(p_scale(pa, 1 / cb), _nn(a) and cb > 0, _pos(a) and cb > 0)
     if len(pb) == 1:
         # denominator c * s1*s2*.. with sqrt atoms of constant radicands: rationalise
         (m, c), = pb.items()
@@ -568,24 +609,55 @@ def div(a, b):
                 if e % 2:
                     num = p_mul(num, {((a, 1),): Fr(1)})
             return mk(p_scale(num, 1 / den))
+    bpos = _pos(b)
     if not pa:
-        CTX.require_nonzero(pb)
+        if not bpos:
+            CTX.require_nonzero(pb)
         return Fr(0)
     # proportional polynomials -> constant
     if len(pa) == len(pb) and set(pa) == set(pb):
         m0 = next(iter(pb))
         c = pa[m0] / pb[m0]
         if all(pa[m] == c * pb[m] for m in pb):
-            CTX.require_nonzero(pb)
+            if not bpos:
+                CTX.require_nonzero(pb)
             return c
-    CTX.require_nonzero(pb)
+    if not bpos:
+        CTX.require_nonzero(pb)
     # pull a constant factor out of the denominator so that equal quotients share one atom
     lead = pb[min(pb)]
     pbn = p_scale(pb, 1 / lead)
     la = pa[min(pa)]
     pan = p_scale(pa, 1 / la)
+    fresh = ('div', p_key(pan), p_key(pbn)) not in CTX.atom_ix
     aid = CTX.atom(('div', p_key(pan), p_key(pbn)), lambda: ('div', pan, pbn))
-    return mk({((aid, 1),): la / lead}, False)
+    if fresh and bpos:
+        CTX.sign_lemma(aid, pan, 1 if lead > 0 else -1)
+    return mk({((aid, 1),): la / lead}, _nn(a) and bpos, _pos(a) and bpos)
+
+
+def _perfect_square(p):
+    """p == k * q^2 for a polynomial q that is linear in the atoms and k > 0?  returns (k, q) or None"""
+    lead = None
+    for m, c in p.items():
+        if len(m) == 1 and m[0][1] == 2:
+            lead = (m[0][0], c)
+            break
+    if lead is None:
+        return None
+    a, k = lead
+    if k <= 0:
+        return None
+    q = {((a, 1),): Fr(1)}
+    for m, c in p.items():
+        if len(m) == 2 and m[0][1] == 1 and m[1][1] == 1 and a in (m[0][0], m[1][0]):
+            b = m[1][0] if m[0][0] == a else m[0][0]
+            q[((b, 1),)] = c / (2 * k)
+        elif len(m) == 1 and m[0] == (a, 1):
+            q[()] = c / (2 * k)
+    if p_scale(p_mul(q, q), k) == p:
+        return k, q
+    return None
 
 
 def ssqrt(v):
@@ -609,11 +681,20 @@ def ssqrt(v):
             m.append((aid, 1))
         return S({tuple(sorted(m)): Fr(sq, d)}, True)
     else:
+        sq = _perfect_square(p)
+        if sq is not None:
+            k, q = sq              # p == k * q^2 with k > 0 rational
+            return ssqrt(k) * sabs(mk(q))
         if not (isinstance(v, S) and v.nn):
             CTX.require_nonneg(p)
         # c * m^2 with c a rational square and m a monomial with even powers -> |..| shortcut skipped on purpose
+    fresh = ('sqrt', p_key(p)) not in CTX.atom_ix
     aid = CTX.atom(('sqrt', p_key(p)), lambda: ('sqrt', p))
-    return S({((aid, 1),): Fr(1)}, True)
+    ispos = _pos(v)
+    if fresh and ispos:
+        z = CTX.atom_zc[(aid, False)]
+        CTX._assert_z(z > 0, z > 0, False)
+    return S({((aid, 1),): Fr(1)}, True, ispos)
 
 
 def sabs(v):
@@ -653,7 +734,7 @@ def ite(c, a, b):
     if pa == pb:
         return a
     aid = CTX.atom(('ite', id(c), p_key(pa), p_key(pb)), lambda: ('ite', c, pa, pb))
-    return S({((aid, 1),): Fr(1)}, _nn(a) and _nn(b))
+    return S({((aid, 1),): Fr(1)}, _nn(a) and _nn(b), _pos(a) and _pos(b))
 
 
 def smax(a, b):
@@ -666,7 +747,7 @@ def smax(a, b):
     if c is not None:
         return a if c >= 0 else b
     aid = CTX.atom(('max', p_key(pa), p_key(pb)), lambda: ('max', pa, pb))
-    return S({((aid, 1),): Fr(1)}, _nn(a) or _nn(b))
+    return S({((aid, 1),): Fr(1)}, _nn(a) or _nn(b), _pos(a) or _pos(b))
 
 
 def smin(a, b):
@@ -679,7 +760,7 @@ def smin(a, b):
     if c is not None:
         return a if c <= 0 else b
     aid = CTX.atom(('min', p_key(pa), p_key(pb)), lambda: ('min', pa, pb))
-    return S({((aid, 1),): Fr(1)}, _nn(a) and _nn(b))
+    return S({((aid, 1),): Fr(1)}, _nn(a) and _nn(b), _pos(a) and _pos(b))
 
 
 def spow(a, e):
@@ -695,6 +776,8 @@ def spow(a, e):
             r = r * a
         if isinstance(r, S) and n % 2 == 0:
             r.nn = True
+        if isinstance(r, S) and _pos(a):
+            r.nn = r.pos = True
         return r
     if fe.denominator == 2:
         r = ssqrt(a)
@@ -788,6 +871,7 @@ class Ctx:
         self.mono_vars = {}      # mono -> z3 const (linear abstraction)
         self.inputs = {}         # name -> aid
         self.int_inputs = set()
+        self.nn_atoms = set()
         self.has_ints = False
         self.pc = []             # exact z3 path condition
         self.pc_nl = False       # path condition has non-linear content
@@ -811,6 +895,7 @@ class Ctx:
             self.atoms.append(('var', name))
             self.inputs[name] = aid
             if nn:
+                self.nn_atoms.add(aid)
                 self._assert_z(z3.Real(name) >= 0, z3.Real(name) >= 0, False)
         return S({((aid, 1),): Fr(1)}, nn)
 
@@ -834,6 +919,22 @@ class Ctx:
                 e = z3.ToReal(z3.Int(name)) >= lo
                 self._assert_z(e, e, False)
         return S({((aid, 1),): Fr(1)}, lo is not None and lo >= 0)
+
+    def atom_nonneg(self, aid):
+        k = self.atoms[aid][0]
+        return k in ('abs', 'sqrt') or aid in self.nn_atoms
+
+    def sign_lemma(self, aid, num, sgn):
+        """quotient atom q = num / den with den of known sign: q has the sign of sgn*num (valid fact, linear)"""
+        q = self.atom_zc[(aid, False)]
+        for lin in (False, True):
+            n = self.poly_z(num, lin)
+            n = n if sgn > 0 else -n
+            lem = z3.And((q > 0) == (n > 0), (q == 0) == (n == 0))
+            if lin:
+                self.lin.add(lem)
+            else:
+                self.pc.append(lem)
 
     def integral(self, s):
         """is the symbolic value an integer-valued term (integer combination of integer variables)?"""
@@ -1219,8 +1320,17 @@ class Ctx:
                 if nice is not None:
                     rec['nice'] = nice
         else:
-            self.stats['unknown'] += 1
-            rec['status'] = 'unknown'
+            # inconclusive over the reals: look for a counterexample on a bounded dyadic grid (cheap, and what a replay needs anyway)
+            nice = None
+            if self.nice_budget > 0:
+                self.nice_budget -= 1
+                nice = self.nice_witness(None if claim is False else bnot(claim), timeout_ms=5000)
+            if nice is not None:
+                rec['status'] = 'violated'
+                rec['model'] = nice
+            else:
+                self.stats['unknown'] += 1
+                rec['status'] = 'unknown'
         return rec['status']
 
     def path_model(self, timeout_ms=None):
